@@ -25,6 +25,7 @@ import (
 	"sync/atomic"
 	"syscall"
 	"time"
+	"verifsim/simrt"
 )
 
 // ConnPlan is the fault plan of one connection.
@@ -47,7 +48,7 @@ func NoPlan() ConnPlan { return ConnPlan{ResetC2S: -1, ResetS2C: -1, StallS2CAt:
 
 // Net is one run's network.
 type Net struct {
-	mu        sync.Mutex
+	mu        simrt.HMutex
 	listeners map[string]*Listener
 	conns     []*Conn
 	nextPort  int
@@ -232,7 +233,7 @@ type segment struct {
 
 // stream is one direction of a connection.
 type stream struct {
-	mu      sync.Mutex
+	mu      simrt.HMutex
 	segs    []segment
 	wake    chan struct{}
 	last    time.Time // last visibleAt of this direction (FIFO)
@@ -245,10 +246,12 @@ type stream struct {
 }
 
 func (s *stream) signal() {
+	simrt.RaceDisable()
 	select {
 	case s.wake <- struct{}{}:
 	default:
 	}
+	simrt.RaceEnable()
 }
 
 // Conn is one connection; Index is its number in dial order.
@@ -275,7 +278,7 @@ type endpoint struct {
 	in, out       *stream
 	local, remote *net.TCPAddr
 
-	mu     sync.Mutex
+	mu     simrt.HMutex
 	closed bool
 	rdl    time.Time
 	wdl    time.Time
@@ -332,8 +335,13 @@ func (e *endpoint) Read(b []byte) (int, error) {
 				wait = d
 			}
 		}
+		// A socket carries bytes, not happens-before edges: the waits of the simulated connection stay invisible to the
+		// race detector. (Timer channels in particular make the runtime's per-P timer context a hub: whoever wakes from
+		// one acquires the clock of everybody who armed an earlier timer, which ordered the instances with one another.)
+		simrt.RaceDisable()
 		if wait < 0 {
 			<-q.wake
+			simrt.RaceEnable()
 			continue
 		}
 		t := time.NewTimer(wait)
@@ -342,6 +350,7 @@ func (e *endpoint) Read(b []byte) (int, error) {
 		case <-t.C:
 		}
 		t.Stop()
+		simrt.RaceEnable()
 	}
 }
 
@@ -618,7 +627,7 @@ func (n *Net) Ticket() int {
 // TicketDialer returns a context dialer whose connections get indexes derived from the ticket.
 func (n *Net) TicketDialer(ticket int) func(ctx context.Context, addr string) (net.Conn, error) {
 	attempt := 0
-	var mu sync.Mutex
+	var mu simrt.HMutex
 	return func(ctx context.Context, addr string) (net.Conn, error) {
 		mu.Lock()
 		idx := 1000 + ticket*8 + attempt%8
